@@ -414,10 +414,27 @@ def validate(chk, traces, label, scripts, chunk, timeout=900):
     return accepted, rejected
 
 
+def after_close(tr, at, ev):
+    """was the call whose return is event `at` started after some Close had returned?"""
+    who = ("r", ev.get("r")) if ev.get("ev") == "rret" else ("w", ev.get("w"))
+    call = {"rret": "rcall", "wret": "wcall"}.get(ev.get("ev"))
+    closed = False
+    started_after = False
+    for e in tr[:at - 1]:
+        if e.get("ev") == "cret":
+            closed = True
+        elif e.get("ev") == call and e.get(who[0]) == who[1]:
+            started_after = closed
+    return started_after
+
+
 def report(chk, rej, label, scripts):
     tid, tr, at, ev, inv = rej
     full = ev
-    sig = "C01/wsconn/" + (("invariant:" + inv) if inv else signature(ev))
+    sg = signature(ev)
+    if not inv and ev.get("ev") in ("rret", "wret") and ev.get("err") == "nil" and after_close(tr, at, ev):
+        sg = "read:data-after-close" if ev["ev"] == "rret" else "write:success-after-close"
+    sig = "C01/wsconn/" + (("invariant:" + inv) if inv else sg)
     if inv:
         what = "invariant %s of spec/WsConn fails on an execution recorded from the real websocketconn.Conn (trace %s/%s, event %d: %s)" % (inv, label, tid, at, json.dumps(full))
     else:
